@@ -502,6 +502,10 @@ def reconfigure(
     If *key* is provided, triples are sorted according to the key.
     """
     p = copy.deepcopy(g)
+    if top is None:
+        # an implicit top is the source of the first triple; pin it
+        # before the triples are sorted
+        top = g.top
     for epilist in p.epidata.values():
         epilist[:] = [
             epi for epi in epilist if not isinstance(epi, LayoutMarker)
